@@ -33,8 +33,8 @@ CONTRACTS = {
     # ---- structure ---------------------------------------------------------------------------------------
     "AtLeast.id": {"props": ["C01", "C03", "C10", "C16"], "why": "id of a node is the id of its variable"},
     "AtLeast.bounds": {"props": ["C01", "C03", "C06", "C07", "C08"], "why": "bounds of a node are its variable's bounds"},
-    "AtLeast.compound_propositions": {"props": ["C01", "C03", "C05", "C08", "C10"], "why": "children that are not puan.variable"},
-    "AtLeast.atomic_propositions": {"props": ["C01", "C03", "C05", "C08", "C10"], "why": "children that are puan.variable"},
+    "AtLeast.compound_propositions": {"props": ["C01", "C03", "C04", "C05", "C08", "C10"], "why": "children that are not puan.variable"},
+    "AtLeast.atomic_propositions": {"props": ["C01", "C03", "C04", "C05", "C08", "C10"], "why": "children that are puan.variable"},
     "AtLeast.flatten": {"props": ["C01", "C03", "C10", "C15"], "why": "self + all descendants, de-duplicated, sorted"},
     "AtLeast._dependencies": {"props": ["C10"], "why": "complete edge relation: (id, ids of all children) for every compound"},
     "AtLeast.errors": {"props": ["C10"],
